@@ -562,8 +562,8 @@ impl Prop for C04 {
     }
     fn runs(&self, tier: Tier) -> u64 {
         match (tier, cfg!(debug_assertions)) {
-            (Tier::Quick, true) => 16_000,
-            (Tier::Quick, false) => 16_000,
+            (Tier::Quick, true) => 10_000,
+            (Tier::Quick, false) => 10_000,
             (Tier::Thorough, true) => 2_000_000,
             (Tier::Thorough, false) => 2_000_000,
         }
